@@ -41,10 +41,16 @@ def check(run):
         "pipeline_preserves_beh (composition of per-pass correctness theorems) is not proved; this check validates each program, it does not prove the compiler",
         "the reference is the typed source tree (TAST) interpreted with first-match pattern semantics; parsing/typing (text -> TAST) are covered by C11/C12/C03/C05",
     ]
-    run.assumptions = ["Sem/GoSem.v models Go: validated against the 66 corpus outputs recorded from real Go; slices are immutable sequences, floats and goroutine scheduling are outside the model",
+    run.assumptions = ["Sem/GoSem.v models Go: validated against the 66 corpus outputs recorded from real Go; slices share their backing array while the capacity lasts (doubling growth), floats and goroutine scheduling are outside the model",
                        "Sem/Src.v is the source-level meaning (call-by-value, left-to-right, short-circuit, Ref cells, wrap-around): validated on the same corpus"]
     for k in run.known:
-        pass
+        if k["replay"]["kind"] == "semantic-differ":
+            import os
+            import semrun
+
+            r = semrun.compare("c01kf", [os.path.join(vlib.VERIF, k["replay"]["program"])], src_stage="tast")[0]
+            if r["status"] == "differ":
+                run.known_finding(k["id"], "%s: %s (%s)" % (k["id"], k["what"], k["replay"]["program"]))
     if wits:
         for w in wits[:3]:
             w["replay_cmd"] = "write `program` to DIR/main.gom; ./check C01 --replay <this file>"
